@@ -142,7 +142,7 @@ def _finish_path(c, op, sh, checks, failures, distinct, samples, replay_of, perk
                                  replay=dict(replay_of(m), clause=clause, klass=kl, label=label)))
 
 
-def task_reorder(sh, mode):
+def task_reorder(sh, mode, profile=False):
     """mode 'connections': every connection permutation x every reversal subset (block list reversed);
             'blocks': every block permutation (all connections listed reversed, rotated)."""
     ld = _load(); T = ld.t2grids
@@ -158,6 +158,10 @@ def task_reorder(sh, mode):
             pi = selector(c, 'cperm', len(perms_c))
             flips = [1 if c.branch(z3.Bool('flip%d' % q)) else 0 for q in range(k)]
             corder = list(perms_c[pi]); border = list(range(nb))[::-1]
+        elif mode == 'both':      # every block permutation x every reversal subset (connection list rotated)
+            pi = selector(c, 'bperm', len(perms_b))
+            flips = [1 if c.branch(z3.Bool('flip%d' % q)) else 0 for q in range(k)]
+            border = list(perms_b[pi]); corder = (list(range(k))[1:] + [0]) if k else []
         else:
             pi = selector(c, 'bperm', len(perms_b))
             border = list(perms_b[pi]); corder = (list(range(k))[1:] + [0]) if k else []
@@ -168,9 +172,14 @@ def task_reorder(sh, mode):
             i, j = sh['cons'][q]
             cn.append((p.bnames[j], p.bnames[i]) if flips[q] else (p.bnames[i], p.bnames[j]))
         snap = G.snapshot(p.g)
-        p.g.reorder(bn, cn if cn else None)
+        raised = None
+        try:
+            p.g.reorder(bn, cn if cn else None)
+        except Exception as ex:
+            raised = '%s: %r' % (type(ex).__name__, ex.args[:1])
         reached[0] += 1
-        checks = [('block-order', 'block list is the requested permutation of the same objects',
+        checks = [('raised', 'the operation completes on an input that satisfies its precondition (%s)' % raised, raised is None),
+                  ('block-order', 'block list is the requested permutation of the same objects',
                    [id(b) for b in p.g.blocklist] == [id(p.blocks[i]) for i in border])]
         if cn:
             checks.append(('connection-order', 'connection list is the requested permutation of the same objects',
@@ -183,19 +192,20 @@ def task_reorder(sh, mode):
                                [id(b) for b in p.cons[q].block] == [id(b) for b in want]))
         checks += block_checks(snap, p.g)
         checks += connection_checks(snap)
+        if raised: checks = checks[:1]        # nothing is claimed about the state an exception leaves behind
         def replay_of(m):
             return dict(op='reorder', pre=G.concrete_pre(m, p), args=dict(perm=border, cons=[[q, flips[q]] for q in corder]))
         _finish_path(c, 'reorder', sh, checks, failures, distinct, samples, replay_of, perkey)
         return 'ok'
 
-    res = sym.explore(h, G.FastCtx(timeout_ms=30000), max_paths=3000)
+    res = sym.explore(h, G.FastCtx(timeout_ms=30000), max_paths=3000, profile_repo=profile)
     tr = report.summarize('reorder/%s/%s' % (G.shape_id(sh), mode), res, failures, samples,
                           extra=dict(distinct_obligations=len(distinct), reached=reached[0]))
     if not reached[0]: tr['error'] = 'vacuous: no path reached the obligations'
     return tr
 
 
-def task_rename(sh, m_, fix=False):
+def task_rename(sh, m_, fix=False, then_reorder=False, profile=False):
     ld = _load(); T = ld.t2grids
     from harness import C08
     failures, samples, distinct, perkey = [], [], set(), {}
@@ -206,7 +216,17 @@ def task_rename(sh, m_, fix=False):
         o = dict(m=m_, alpha='lower')
         keys, vals, bm = C08._rename_map(c, p, o, p.bnames)
         snap = G.snapshot(p.g)
-        p.g.rename_blocks(bm, fix_blocknames=fix)
+        order_b, order_c = list(range(sh['nb'])), list(range(len(sh['cons'])))
+        raised = None
+        try:
+            p.g.rename_blocks(bm, fix_blocknames=fix)
+            if then_reorder:
+                # composition: reorder the renamed grid (block list reversed, every connection listed reversed, under the NEW names)
+                order_b, order_c = order_b[::-1], order_c[::-1]
+                p.g.reorder([p.blocks[i].name for i in order_b],
+                            [tuple(b.name for b in p.cons[q].block)[::-1] for q in order_c] or None)
+        except Exception as ex:
+            raised = '%s: %r' % (type(ex).__name__, ex.args[:1])
         reached[0] += 1
         # expected name of each block: f(old name)
         exp = []
@@ -215,20 +235,23 @@ def task_rename(sh, m_, fix=False):
             parts = [z_or([z_not(hk), eqf(b.name, v)]) for hk, v in zip(hit, vals)]
             parts.append(z_or(hit + [eqf(b.name, name)]))
             exp.append(zb(z_and(parts)))
-        checks = [('block-order', 'block list holds the same objects in the same order',
-                   [id(b) for b in p.g.blocklist] == [id(b) for b in p.blocks]),
-                  ('connection-order', 'connection list holds the same objects in the same order',
-                   [id(x) for x in p.g.connectionlist] == [id(x) for x in p.cons])]
+        checks = [('raised', 'the operation completes on an input that satisfies its precondition (%s)' % raised, raised is None),
+                  ('block-order', 'block list holds the same objects in the expected order',
+                   [id(b) for b in p.g.blocklist] == [id(p.blocks[i]) for i in order_b]),
+                  ('connection-order', 'connection list holds the same objects in the expected order',
+                   [id(x) for x in p.g.connectionlist] == [id(p.cons[q]) for q in order_c])]
         checks += block_checks(snap, p.g, expect_names=exp)
         checks += connection_checks(snap)
+        if raised: checks = checks[:1]        # nothing is claimed about the state an exception leaves behind
         def replay_of(m):
             return dict(op='rename_blocks', pre=G.concrete_pre(m, p),
-                        args=dict(map=[[name_value(m, k), name_value(m, v)] for k, v in zip(keys, vals)], fix=fix))
-        _finish_path(c, 'rename_blocks', sh, checks, failures, distinct, samples, replay_of, perkey)
+                        args=dict(map=[[name_value(m, k), name_value(m, v)] for k, v in zip(keys, vals)], fix=fix,
+                                  then_reorder=then_reorder))
+        _finish_path(c, 'rename_blocks+reorder' if then_reorder else 'rename_blocks', sh, checks, failures, distinct, samples, replay_of, perkey)
         return 'ok'
 
-    res = sym.explore(h, G.FastCtx(timeout_ms=30000), max_paths=6000)
-    tr = report.summarize('rename/%s/m=%d' % (G.shape_id(sh), m_), res, failures, samples,
+    res = sym.explore(h, G.FastCtx(timeout_ms=30000), max_paths=6000, profile_repo=profile)
+    tr = report.summarize('rename%s/%s/m=%d' % ('+reorder' if then_reorder else '', G.shape_id(sh), m_), res, failures, samples,
                           extra=dict(distinct_obligations=len(distinct), reached=reached[0]))
     if not reached[0]: tr['error'] = 'vacuous: no path reached the obligations'
     return tr
@@ -236,7 +259,7 @@ def task_rename(sh, m_, fix=False):
 
 ATMOS_VOLUME = 1.e25     # default of t2grid.minc
 
-def task_minc(sh, fractions, spacing, nfp, blocks):
+def task_minc(sh, fractions, spacing, nfp, blocks, profile=False):
     ld = _load(); T = ld.t2grids
     failures, samples, distinct, perkey = [], [], set(), {}
     reached = [0]
@@ -307,14 +330,14 @@ def task_minc(sh, fractions, spacing, nfp, blocks):
                      klass_default='levels-%d,planes-%d,%s' % (L, nfp, 'all' if blocks is None else 'partial'))
         return 'ok:%d processed' % len(processed)
 
-    res = sym.explore(h, G.FastCtx(timeout_ms=30000), max_paths=3000)
+    res = sym.explore(h, G.FastCtx(timeout_ms=30000), max_paths=3000, profile_repo=profile)
     tr = report.summarize('minc/%s/%s/%s/%s/%s' % (G.shape_id(sh), fractions, spacing, nfp, blocks), res, failures, samples,
                           extra=dict(distinct_obligations=len(distinct), reached=reached[0]))
     if not reached[0]: tr['error'] = 'vacuous: no path reached the obligations'
     return tr
 
 
-def task_embed(sh, other, host, sub):
+def task_embed(sh, other, host, sub, profile=False):
     ld = _load(); T = ld.t2grids
     failures, samples, distinct, perkey = [], [], set(), {}
     reached = [0]
@@ -355,14 +378,14 @@ def task_embed(sh, other, host, sub):
         _finish_path(c, 'embed', sh, checks, failures, distinct, samples, replay_of, perkey)
         return 'embedded'
 
-    res = sym.explore(h, G.FastCtx(timeout_ms=30000), max_paths=3000)
+    res = sym.explore(h, G.FastCtx(timeout_ms=30000), max_paths=3000, profile_repo=profile)
     tr = report.summarize('embed/%s/%s' % (G.shape_id(sh), G.shape_id(other)), res, failures, samples,
                           extra=dict(distinct_obligations=len(distinct), reached=reached[0]))
     if not reached[0]: tr['error'] = 'vacuous: no path reached the obligations'
     return tr
 
 
-def task_fromgeo_reorder(nx, ny, nz, atmos_type):
+def task_fromgeo_reorder(nx, ny, nz, atmos_type, profile=False):
     """grid produced by the real rectangular()+fromgeo() with symbolic spacings;
     reorder to the reversed block list with every connection listed reversed."""
     ld = _load(); T = ld.t2grids
@@ -388,7 +411,7 @@ def task_fromgeo_reorder(nx, ny, nz, atmos_type):
         _finish_path(c, 'reorder', shname, checks, failures, distinct, samples, replay_of, perkey)
         return 'ok'
 
-    res = sym.explore(h, G.FastCtx(timeout_ms=30000), max_paths=200)
+    res = sym.explore(h, G.FastCtx(timeout_ms=30000), max_paths=200, profile_repo=profile)
     tr = report.summarize('fromgeo_reorder/%s' % shname, res, failures, samples,
                           extra=dict(distinct_obligations=len(distinct), reached=reached[0]))
     if not reached[0]: tr['error'] = 'vacuous: no path reached the obligations'
@@ -423,6 +446,12 @@ def catalogue(tier):
         ren += [(3, [(0, 1), (1, 2), (2, 0)], 3), (4, [(0, 1), (2, 1), (2, 3), (3, 0)], 2)]
     for nb, cons, m_ in ren:
         add(task_rename, sh=G.shape(nb, cons, nr=2), m_=m_, fix=(m_ == 1))
+    # composition rename -> reorder (with reversals) on the renamed grid
+    add(task_rename, sh=G.shape(3, [(0, 1), (2, 1)], nr=2), m_=2, fix=False, then_reorder=True)
+    if tier != 'quick':
+        add(task_rename, sh=G.shape(4, [(0, 1), (2, 1), (2, 3), (3, 0)], nr=2), m_=2, fix=True, then_reorder=True)
+        for sub in ([(0, 1), (1, 2), (2, 3), (0, 3)], [(0, 1), (0, 2), (0, 3), (1, 2)], [(0, 1), (1, 2), (2, 3), (1, 3)]):
+            add(task_reorder, sh=G.shape(4, G.orient(sub, 'alt'), nr=2), mode='both')
     # MINC
     mincs = [([0.2, 0.8], 50., 1, None), ([0.1, 0.3, 0.6], 30., 2, None), ([0.1, 0.3, 0.6], 30., 2, [1])]
     if tier != 'quick':
@@ -446,7 +475,25 @@ def catalogue(tier):
     if tier != 'quick':
         add(task_fromgeo_reorder, nx=2, ny=2, nz=2, atmos_type=0)
         add(task_fromgeo_reorder, nx=3, ny=1, nz=2, atmos_type=2)
-    return tasks
+    seen = set()
+    for f, kw in tasks:        # the slow sys.setprofile pass (which repo functions ran) once per kind of task
+        if f not in seen and (f is task_fromgeo_reorder or kw['sh']['nb'] >= 2):
+            seen.add(f); kw['profile'] = True
+    return schedule(tasks)
+
+
+def schedule(tasks):
+    """longest first (estimated number of paths); stable."""
+    from math import factorial
+    def weight(t):
+        f, kw = t
+        if f is task_reorder:
+            nb, k = kw['sh']['nb'], len(kw['sh']['cons'])
+            return {'connections': factorial(k) * 2 ** k, 'both': factorial(nb) * 2 ** k, 'blocks': factorial(nb)}[kw['mode']]
+        if f is task_minc: return 4 ** kw['sh']['nb'] * len(kw['fractions'])
+        if f is task_rename: return (kw['sh']['nb'] + 1) ** kw['m_']
+        return 5
+    return sorted(tasks, key=lambda t: -weight(t))
 
 
 def run(tier, seed, rep):
@@ -460,6 +507,7 @@ def run(tier, seed, rep):
     if seed:
         import random
         random.Random(seed).shuffle(tasks)
+        tasks = schedule(tasks)
     rep.add_results(report.run_tasks(tasks))
     rep.extra['paths_reaching_obligations'] = sum(r.get('extra', {}).get('reached', 0) for r in rep.results)
     rep.bounds += [
@@ -476,7 +524,8 @@ def run(tier, seed, rep):
     rep.outside += [
         'MINC connection distances and areas (scipy.optimize.bisect on the proximity function: numerical root finding on floats)',
         'write/read of the data file after the operation (composition with the C01 round trip)',
-        'compositions of several operations (each single step is proved from an arbitrary pre-state instead)',
+        'compositions of several operations beyond rename->reorder (each single step is proved from an arbitrary pre-state instead, '
+        'so any composition that stays within the size bound inherits the result)',
         'irregular geometries as inputs (the pre-state is an arbitrary symbolic grid of <=4 blocks, which subsumes their values but not their sizes)',
         'the by-name lookups after the operation (that is C08); here the physics is read from the ordered lists a data file is written from',
         'IEEE rounding: volumes are exact reals, the MINC fractions are the exact values of the floats the real code computes',
